@@ -61,8 +61,8 @@ def gen_c09_stack(rng):
     layers = mix + rest + mv
     if "mix" in collators and not mix:
         layers.append({"t": "onehot"})  # the mix collator expects one-hot labels
-    container = None if mv else rng.choice([None, None, None, "concat", "interleaved"])
-    if mix and container == "concat":
+    container = None if mv else rng.choice([None, None, None, "concat", "interleaved", "concat_shared"])
+    if mix and container in ("concat", "concat_shared"):
         container = "interleaved"
     return {"root": {"kind": "tensor", "n": n}, "layers": layers, "collators": collators, "container": container}
 
@@ -94,6 +94,10 @@ def build_c09(stack, mode, return_ctx):
             ds = S.apply_layer(ds, layer)
     if stack["container"] == "concat":
         other = W.XTransformWrapper(RootDataset("tensor", 3), C.build({"t": "leaf", "name": "KDAdditiveGaussianNoise"}))
+        ds = KDConcatDataset([ds, other])
+    elif stack["container"] == "concat_shared":
+        # e.g. a weakly and a strongly augmented view of one dataset: two wrapper stacks over the same root object
+        other = W.SubsetWrapper(W.XTransformWrapper(ds.root_dataset, C.build({"t": "leaf", "name": "KDAdditiveGaussianNoise"})), indices=[0, 1, 2])
         ds = KDConcatDataset([ds, other])
     mw = W.ModeWrapper(ds, mode=mode, return_ctx=return_ctx)
     if cols:
@@ -189,7 +193,7 @@ class Spec(core.PropSpec):
         return dict(stack=stack, mode=mode, return_ctx=need_ctx, K=ro.choice([1, 2, 2, 3, 4]),
                     betas=[ro.randint(0, 2 ** 40) for _ in range(3)], batch_size=ro.choice([1, 2, 3]), n_batches=ro.randint(1, 4 if tier == "quick" else 8),
                     hook=ro.random() < 0.93, clobbers=[ro.choice([None, ["np", ro.randint(0, 99)], ["torch", 1], ["py", 2]]) for _ in range(4)],
-                    sched_seed=ro.getrandbits(32), amb_main=rw.getrandbits(30))
+                    sched_seed=ro.getrandbits(32), amb_main=rw.getrandbits(30), main_hook_rank=ro.choice([None, None, None, 0, 1]))
 
     def shrink_candidates(self, plan):
         st = plan["stack"]
@@ -212,6 +216,8 @@ class Spec(core.PropSpec):
         yield from core.generic_candidates(plan, [], [(["K"], 1), (["n_batches"], 1), (["batch_size"], 1)])
         if any(plan["clobbers"]):
             yield dict(plan, clobbers=[None] * 4)
+        if plan.get("main_hook_rank") is not None:
+            yield dict(plan, main_hook_rank=None)
 
     # ---------------------------------------------------------------------------------------------------------
     def execute(self, plan):
@@ -237,12 +243,21 @@ class Spec(core.PropSpec):
             out.count("rejected:" + type(e).__name__)
             out.ev("rejected", type(e).__name__, str(e)[:80])
             return out
+        if plan.get("main_hook_rank") is not None:
+            try:
+                with main.on_cpu():
+                    ds.worker_init_fn(plan["main_hook_rank"])
+                out.count("fault:hook_called_in_main_process_first")
+            except Exception as e:
+                out.rejected = True
+                out.ev("rejected", "main-hook", type(e).__name__)
+                return out
         K, bs = plan["K"], plan["batch_size"]
         n_main = n - 3 if stack["container"] else n
         batches = [[(b * bs + j) % n_main for j in range(bs)] for b in range(plan["n_batches"] * K)]
         if stack["container"] == "interleaved":
             batches[-1] = [n_main + j % 3 for j in range(bs)]  # one pass over the second dataset, never mixed with the first
-        elif stack["container"] == "concat":
+        elif stack["container"] in ("concat", "concat_shared"):
             batches[-1] = [n_main + j % 3 for j in range(bs)]
         forked = {p: (owner, fingerprint(g)) for p, owner, g in walk((ds, collate))}
         out.count("logical:reachable_generators", len(forked))
